@@ -533,6 +533,11 @@ def scenario_rewrite_path(ck, stats, k, action):
     finally:
         os.chdir(cwd)
     conf = sb.write_conf(b'maildir "%s" {\n match header "X-Id" /real/ %s exec stdin { "%s" "r" }\n}\n' % (root.encode(), rule, helper.encode()))
+    mres = common.run_lines(common.model_exe(), ['flow delivered %s %s %s' % (hexs(root.encode()), hexs(b'new'), hexs(gen.encode()))])[0][0]
+    mres0 = common.run_lines(common.model_exe(), ['flow message %s %s %s' % (hexs(root.encode()), hexs(b'new'), hexs(b'm'))])[0][0]
+    if mres != 'N' or mres0 == 'N':
+        ck.violation('correspondence broken: NamesDefs flows in a maildir of length %d: message path %s, rewritten path %s' % (len(root), mres0[:20], mres[:20]),
+                     {'scenario': 'rewrite_path', 'k': k, 'action': action.decode(), 'obligation': 'correspondence NamesDefs.compute (message / delivered path)'}, found_input=False)
     env = dict(pins); env.update({'VERIF_HELPER_OUT': hout, 'VERIF_HELPER_EXIT': '0'})
     rc, out, err = sb.run([], conf=conf, env=env, preload=shim)
     stats['binary'] += 1
@@ -570,6 +575,10 @@ def scenario_tmpdir_exec(ck, stats, L):
     stats['binary'] += 1
     calls = common.helper_calls(hout)
     fits = L + len('/mdsort-XXXXXXXX') < PATH_MAX
+    mres = common.run_lines(common.model_exe(), ['flow tmp %s' % hexs(long_dir.encode())])[0][0]
+    if (mres != 'N') != fits or (fits and unhexs(mres[1:]) != long_dir.encode() + b'/mdsort-XXXXXXXX'):
+        ck.violation('correspondence broken: NamesDefs.e_tmp_template for a TMPDIR of length %d: model %s' % (L, mres[:40]),
+                     {'scenario': 'TMPDIR-exec', 'length': L, 'obligation': 'correspondence NamesDefs.compute (temporary-file template)'}, found_input=False)
     rep = {'scenario': 'TMPDIR-exec', 'length': L, 'exit': rc, 'calls': len(calls), 'stderr': err[-300:].decode(errors='replace')}
     if fits:
         if rc != 0 or sorted(c['stdin'] for c in calls) != sorted(bodies):
